@@ -68,7 +68,7 @@ def check_fair_states_case(case):
     snap = deep_snapshot(K)
     r = call(K.get_fair_states, [set(P) for P in Fs])
     exp = set(sem.fair_states(SK, Fs))
-    desc = 'Kripke(S=%r,R=%r).get_fair_states(%r)' % (kdata[0], kdata[1], Fs)
+    desc = '%s.get_fair_states(%r)' % (gen.ktext(kdata), Fs)
     if r[0] != 'ok':
         fails.append(('get_fair_states:raises', '%s raised %s (%s)' % (desc, r[1], r[2]), {'defect_model': None}))
     else:
@@ -172,7 +172,7 @@ def check_fair_mc_case(case):
     snap = deep_snapshot(K)
     for t in ts:
         def bad(kind, what, dm):
-            fails.append((kind, '%s: %s.modelcheck(Kripke(S=%r,R=%r,L=%r), %s, F=%r)' % (what, logic, kdata[0], kdata[1], kdata[2], trees.to_text(t), Fs),
+            fails.append((kind, '%s: %s.modelcheck(%s, %s, F=%r)' % (what, logic, gen.ktext(kdata), trees.to_text(t), Fs),
                           {'logic': logic, 'defect_model': dm}, (logic, kdata, F, [t])))
         f = trees.build(L, t)
         r = call(L.modelcheck, K, f, F=None if Fs is None else [set(P) for P in Fs])
